@@ -98,6 +98,15 @@ def stage_audit(prop, modules=None):
 
 # ----------------------------------------------------------------------------------------------- stage C, D
 _WORKER = {}
+CASE_TIMEOUT = 15          # seconds of wall time per case on the implementation; a case that exceeds it is reported as a hanging adapter (broken correspondence)
+
+
+class CaseTimeout(BaseException):
+    pass
+
+
+def _alarm(signum, frame):
+    raise CaseTimeout()
 
 
 def _work(args):
@@ -106,9 +115,20 @@ def _work(args):
     if mod is None:
         mod = __import__(prop_mod, fromlist=["x"]); _WORKER[prop_mod] = mod
     out = []
+    import signal
+    try:
+        signal.signal(signal.SIGALRM, _alarm)
+    except ValueError:
+        pass
     for case in chunk:
         try:
-            obs = mod.run_impl(case)
+            signal.setitimer(signal.ITIMER_REAL, CASE_TIMEOUT)
+            try:
+                obs = mod.run_impl(case)
+            finally:
+                signal.setitimer(signal.ITIMER_REAL, 0)
+        except CaseTimeout:
+            obs = {"adapter_error": "the implementation did not finish this case within %d s (it hangs)" % CASE_TIMEOUT}
         except BaseException as e:       # the adapter itself failed: reported as a broken correspondence
             obs = {"adapter_error": "%s: %s" % (type(e).__name__, e), "tb": traceback.format_exc()[-800:]}
         try:
@@ -171,6 +191,16 @@ def run_check(prop, mod, tier, seed):
     """
     t0 = time.time()
     from harness.driver import run_model, DriverError
+    import signal
+    signal.signal(signal.SIGALRM, _alarm)
+
+    def impl(c):
+        """the adapter under the per-case watchdog (shrinking, neighbourhood search and replays run in this process)"""
+        signal.setitimer(signal.ITIMER_REAL, CASE_TIMEOUT)
+        try:
+            return mod.run_impl(c)
+        finally:
+            signal.setitimer(signal.ITIMER_REAL, 0)
     lines = []          # VIOLATION / KNOWN-FINDING lines
     violations = 0
     prop_mod = mod.__name__
@@ -265,9 +295,9 @@ def run_check(prop, mod, tier, seed):
     if failing:
         i, v = failing[0]
         def still_fails(c):
-            o = mod.run_impl(c); return mod.monitor(c, o) is not None
+            o = impl(c); return mod.monitor(c, o) is not None
         small = shrink(cases[i], still_fails)
-        o = mod.run_impl(small)
+        o = impl(small)
         path = write_replay(prop, "violation", {"property": prop, "kind": "property violated on the implementation",
                                                  "case": strip_cc(small), "original_case": strip_cc(cases[i]),
                                                  "impl_observation": slim(mod, o), "verdict": mod.monitor(small, o) or v,
@@ -281,7 +311,7 @@ def run_check(prop, mod, tier, seed):
         for i, d in disagreements[:20]:
             for cand in (mod.neighbours(cases[i], rnd) if hasattr(mod, "neighbours") else []):
                 try:
-                    o = mod.run_impl(cand); v = mod.monitor(cand, o)
+                    o = impl(cand); v = mod.monitor(cand, o)
                 except BaseException:
                     continue
                 if v is not None and not (hasattr(mod, "classify") and mod.classify(cand, o, v, None) is not None):
@@ -307,10 +337,10 @@ def run_check(prop, mod, tier, seed):
                 def mrun(c, o):
                     return run_model([mod.model_input(c, o) if hasattr(mod, "model_input") else mod.model_case(c)])[0]
                 def still_differs(c):
-                    o = mod.run_impl(c); m = mrun(c, o)
+                    o = impl(c); m = mrun(c, o)
                     return mod.compare(c, o, m) is not None
                 small = shrink(cases[i], still_differs)
-                o = mod.run_impl(small); m = mrun(small, o)
+                o = impl(small); m = mrun(small, o)
                 what["correspondence"] = {"domain": small.get("op") if isinstance(small, dict) else None, "case": strip_cc(small),
                                           "first_difference": mod.compare(small, o, m) or d, "impl_observation": slim(mod, o),
                                           "model_observation": m, "disagreeing_cases": len(disagreements),
